@@ -58,6 +58,8 @@ def check_reference(system, mode, cls, vals, outcome):
     """Is `outcome` (what real visions returned) a reference walk?  None = yes, else reason."""
     if len(system["types"]) == 1:
         return None          # single-type typesets: known finding F12b (detect raises), not judged here
+    if outcome[0] == "raise" and outcome[1] in (8, 108) and any(dc["related"] > td["id"] for td in system["types"] for dc in td["decls"]):
+        return None          # a walk that never ends in a system with cyclical relations (RecursionError)
     if outcome[0] == "raise":
         # an exception is legitimate only if some guard/transformer on the way raises; we accept
         # exceptions when any relation in the system can raise on this data (conservative)
@@ -157,8 +159,8 @@ def gen_groups(rnd, n_random, small_exhaustive):
         for n in range(1, small_exhaustive + 1):
             for _ in range(12 * n):
                 groups.append(tsys.gen_system(rnd, n=n))
-    for _ in range(n_random):
-        groups.append(tsys.gen_system(rnd))
+    for k in range(n_random):
+        groups.append(tsys.gen_system(rnd, p_back=0.5 if k % 4 == 3 else 0.0))
     return groups
 
 
